@@ -77,7 +77,7 @@ CHECKS['C03'] = {
 }
 CHECKS['C09'] = {
     'grid': {'quick_stride': 2, 'sets': ['c09'], 'bound': '68 expressions / functions and 24 aggregates x 26 lines of extreme data (64-bit ends, NaN / infinities, zero divisors, huge and negative subscripts, absent groups, NULLs, out-of-range and DST-gap date parts, malformed JSON, non-text bytes) x text / JSON / CSV output, lines alone, in pairs and all together (about 7300 runs); the only oracle is: no panic'},
-    'verus_units': ['eval', 'follow', 'select', 'engine', 'extract', 'parser', 'tokenizer', 'converter', 'valuetype', 'output', 'executor', 'aggregate', 'aggdispatch', 'aggresult', 'join', 'joinload', 'mapping'],
+    'verus_units': ['eval', 'follow', 'select', 'engine', 'extract', 'parser', 'tokenizer', 'converter', 'valuetype', 'output', 'executor', 'aggregate', 'aggdispatch', 'aggresult', 'join', 'joinload', 'mapping', 'visit'],
     'only_safety': True,
     'clause_prefixes': ['c09'],
     'technique': 'contract-based deductive verification (Verus): absence of arithmetic overflow, division by zero, failed callee preconditions (unwrap, indexing, unreachable!) in every extracted function',
@@ -105,7 +105,7 @@ CHECKS['C08'] = {
     'level': 'proof',
     'explanation': 'The abstract DISTINCT memory is the sequence of remembered tuples; membership is pointwise value_eq. The contract of execute is stated over that view and over sem_eval of the projections.',
     'trusted': COMMON_TRUST + ['fnv::FnvHashSet contains/insert as a mathematical set over Eq classes of Vec<Value> (assumed; relies on C16 laws)'],
-    'unproved': ['ExpressionTree::visit (its node order is an uninterpreted function of the tree: rule E4-visit)', 'iter_mut loop headers of the PERCENTILE refresh'],
+    'unproved': ['the ORDER in which ExpressionTree::visit reaches the nodes (uninterpreted: rule E4-visit); that it reaches every sub-expression is proved in unit visit for a visitor without state', 'iter_mut loop headers of the PERCENTILE refresh'],
 }
 
 CHECKS['C07'] = {
@@ -134,7 +134,7 @@ CHECKS['C06'] = {
 }
 CHECKS['C11'] = {
     'grid': {'sets': ['c11'], 'bound': 'every sequence of up to 3 lines and a seventh of those of 4 lines over a 7-line pool (one non-admitted) x 7 aggregate statements (HAVING that a group can stop satisfying, DISTINCT, PERCENTILE) and 7 plain / DISTINCT statements, every prefix length (about 4800 cases)'},
-    'verus_units': ['engine', 'aggdispatch', 'aggresult'],
+    'verus_units': ['engine', 'aggdispatch', 'aggresult', 'visit'],
     'clause_prefixes': ['c11'],
     'technique': 'contract-based deductive verification (Verus): ExecutionEngine::execute dispatch, execution_config, ExecutionConfig constructors, AggregateExecutionEngine::execute extracted from /repo; induction lemma over the per-line contracts',
     'claim': 'Proof (dispatch, cell refresh, row assembly) that with {update,result} each line folds into the aggregation state exactly as with {update} alone and the table shown is the table of the state after that line, that {result} alone shows the table of the current state without changing it, and (lemma) that the state after k lines is therefore identical in follow and batch mode. Inside execute_result two parts are proved: the refresh of a PERCENTILE cell (the body of the inner loop, rule E3c) overwrites exactly that cell with the value the aggregator shows now and running aggregates touch nothing, and the row assembly builds the table from the per-group cells with a DISTINCT memory that is fresh for every table (unit aggresult). The columns (extract_result_rows_by_column) and HAVING (accept_group) are proved to be functions of the group cells; that the iter_mut loop headers of the refresh visit every aggregator once is assumed.',
@@ -142,7 +142,7 @@ CHECKS['C11'] = {
     'level': 'proof',
     'explanation': 'Dispatch in ExecutionEngine::execute and AggregateExecutionEngine::execute (unit engine) over an abstract state machine (agg_step, agg_table); execute_result/refresh-cell (unit aggdispatch) and the row loop of execute_result (unit aggresult) discharge the part of "agg_table is a function of the state" that lies in extracted code.',
     'trusted': COMMON_TRUST + ['AggregateExecutionEngine::execute_update / execute_result as an abstract state machine (agg_step, agg_table)'],
-    'unproved': ['ExpressionTree::visit (its node order is an uninterpreted function of the tree: rule E4-visit)', 'iteration order and coverage of the iter_mut loops in execute_result'],
+    'unproved': ['the ORDER in which ExpressionTree::visit reaches the nodes (uninterpreted: rule E4-visit); that it reaches every sub-expression is proved in unit visit for a visitor without state', 'iteration order and coverage of the iter_mut loops in execute_result'],
 }
 
 CHECKS['C01'] = {
@@ -222,7 +222,7 @@ CHECKS['C19'] = {
 
 CHECKS['C04'] = {
     'grid': {'quick_stride': 4, 'sets': ['c04'], 'bound': 'every sequence of up to 3 rows, a ninth of those of 4 and about 1% of those of 5 over a 7-row pool (NULL keys, NULL arguments, all-NULL groups, TEXT arguments) x 9 statement shapes against aggregates computed per group from the written rows (about 4000 cases); every statement has COUNT(*), so the two known findings (no cell at all) are outside this grid'},
-    'verus_units': ['aggregate', 'aggdispatch', 'aggresult', 'converter'],
+    'verus_units': ['aggregate', 'aggdispatch', 'aggresult', 'converter', 'visit'],
     'clause_prefixes': ['c04', 'value.modify', 'value.map-numeric', 'value.default'],
     'technique': 'contract-based deductive verification (Verus): GroupAggregator::default / update (all arms) / is_null, ensure_sum_fits and Value::modify_same_type_numeric_nullable / map_numeric extracted from /repo against step functions written from the property text',
     'claim': 'Proof (fold kernel and per-group dispatch) for all states and values that one update step of each running aggregate is exactly the documented step and that update_aggregate folds a row into the cell of ITS group and aggregate index only (get_group: an existing cell is returned as it is, the default is computed only for a missing cell; COUNT / COUNT(DISTINCT) add one exactly for qualifying rows; MIN / MAX by value order; NULL arguments never wipe an accumulated value; ARRAY_AGG appends in arrival order; STRING_AGG joins with the delimiter); execute_update leaves the state untouched for rows that fail WHERE. Step level: SUM / AVG / STDDEV-VARIANCE bookkeeping add the value exactly or report an error (never wrap), the first value only initialises, AVG shows sum/count, PERCENTILE collects every value, BOOL_AND / BOOL_OR combine two-valued, COUNT(DISTINCT) counts a value only at its first occurrence; the unimplemented!() arms of default are unreachable under its precondition. Result path (unit aggresult): extract_result_rows_by_column builds one named column per select-list aggregate with exactly one value per group in key order, each taken from that group (its key component, or its own cell through the select-list expression; COUNT 0 / NULL when no row of the group qualified), and execute_result zips the columns position by position into rows, applies HAVING per group and DISTINCT among the kept rows. Known findings: a group none of whose aggregates got a qualifying row (COUNT(c), STRING_AGG(c) with c NULL throughout) is missing from the result. update_aggregates (unit aggdispatch): the group key of a row is the values of its GROUP BY expressions on that row (map_result_vec is verified: one result per element in order, or an error), a row without a key is an error that aggregates nothing, and every select-list aggregate is dispatched exactly once, in order, under its own index for that key (fold_select_list); a group-key column is validated against the GROUP BY list on every admitted row (validate_group_key, the GroupKey arm); the dispatching match of update_aggregate hands every aggregate to the arm that was proved for it (rule E3e); execute_update folds exactly the rows that pass WHERE. PERCENTILE (update_value) shows the value at rank min(floor(p*n), n-1) of the sorted values of the group, never one past the end, and the refresh of a shown cell overwrites exactly that cell. HAVING (accept_group) is evaluated on the group\'s own key parts (by GROUP BY position) and its own cells (select-list count + j; COUNT 0 / NULL when missing), and an aggregate inside an expression (evaluate, Aggregate arm) denotes exactly the value bound under its name. Lowering (unit converter): transform_call_aggregate maps each aggregate name to its aggregate over the lowered argument, COUNT takes nothing, * or one column, and a wrong number of arguments or an unknown name is an error; transform_aggregate allows one aggregate per select-list entry and turns an entry without aggregate into a group-key column; create_aggregate_statement keeps the entries in order under their indices. NOT decided: the HAVING aggregates inside update_aggregates (closure over &mut self, stubbed), extract_having_aggregates (visitor closure).',
@@ -230,7 +230,7 @@ CHECKS['C04'] = {
     'level': 'proof',
     'explanation': 'sum_step etc. are the semantic steps; C15 lemmas lift them to order-insensitivity.',
     'trusted': COMMON_TRUST + ['std HashSet<Value> / BTreeMap / HashMap behaviour', 'float and interval arithmetic uninterpreted'],
-    'unproved': ['ExpressionTree::visit (its node order is an uninterpreted function of the tree; the two visitor closures are verified as loops over that order: rule E4-visit)', 'Vec<Value>::sort (sorted permutation stand-in)', 'iter_mut loop headers of execute_result'],
+    'unproved': ['the ORDER in which ExpressionTree::visit reaches the nodes (uninterpreted; the two visitor closures are verified as loops over that order: rule E4-visit); that it reaches every sub-expression is proved in unit visit for a visitor without state', 'Vec<Value>::sort (sorted permutation stand-in)', 'iter_mut loop headers of execute_result'],
 }
 CHECKS['C15'] = {
     'grid': {'sets': ['c15'], 'bound': 'every multiset of 2..4 lines over a 7-line pool, all its permutations, x 6 statements (COUNT, COUNT(c), COUNT(DISTINCT), SUM, MIN, MAX, AVG, PERCENTILE, BOOL_AND, BOOL_OR; GROUP BY / WHERE / HAVING) and STDDEV / VARIANCE to 9 decimals; every cut of every sequence of 2..3 lines (a fifth of those of 4) into two parts for the key-wise combination (about 3750 cases)'},
